@@ -135,7 +135,7 @@ def check_P_identity(case):
     rec = Recorder(alg.problem)
     alg.problem.evaluate = rec
     set_seed(case["seed"])
-    labels = [f"K={K}", "L<=50" if case["L"] <= 50 else "L>50"] + (["far-from-origin"] if off else [])
+    labels = [f"K={K}", "L<=50" if case["L"] <= 50 else "L>50" if case["L"] <= 200 else "L>1024"] + (["far-from-origin"] if off else [])
     band = max(1e-9 * spread, 1e-13 * abs(off) * (case["L"] + 1))  # float64 rounding of the running means
     nt = False
     sums = np.zeros((K, 2))
@@ -151,6 +151,9 @@ def check_P_identity(case):
                 sums[i] += r
                 cnt[i] += 1
         seen = len(rec.calls)
+        r = len(rec.calls)
+        if case["L"] > 200 and not (r % 97 == 0 or r >= case["L"] or any(0 < r - 2**k <= 3 for k in range(7, 14))):
+            continue  # long runs: compared every 97th round, in the three rounds after each power of two, and at the end
         if cnt.min() == 0:
             return Result.violation("C08:P:design-never-sampled", f"counts {cnt.tolist()}", labels)
         means = sums / cnt[:, None]
@@ -177,6 +180,14 @@ def st_pid(draw):
             "Y": [[draw(st.floats(-1, 1)), draw(st.floats(-1, 1))] for _ in range(K)], "noise_var": draw(gen.st_logfloat(1e-3, 1.0)),
             "L": draw(st.one_of(st.integers(1, 6), st.integers(1, 6), st.integers(45, 130))),
             "offset": draw(st.sampled_from([0.0, 0.0, 1e4, -1e6])), "spread": draw(st.sampled_from([1.0, 1.0, 1e-3])), "seed": draw(st.integers(0, 2**31 - 1))}
+
+
+@st.composite
+def st_pid_long(draw):
+    case = draw(st_pid())
+    case["Y"] = case["Y"][: draw(st.integers(2, 4))]
+    case["L"] = draw(st.sampled_from([1024, 2048, 4096])) + draw(st.integers(1, 40))
+    return case
 
 
 def check_monte_carlo(case):
@@ -255,6 +266,9 @@ COMPONENTS = [
               rule="two designs, displacement direction within the cone, gap eps(1+eta), eta 1e-3..0.5"),
     Component("P_is_pareto_of_means", check_P_identity, strategy=st_pid, quick=300, thorough=8000,
               rule="2..7 designs, 1..6 or 45..130 rounds (beyond the 50-round logging throttle), recording proxy on problem.evaluate; compared after every step incl. one step after completion"),
+    Component("P_is_pareto_of_means_long_runs", check_P_identity, strategy=st_pid_long, quick=16, thorough=200,
+              rule="2..4 designs, runs of 1025..4136 rounds (just beyond a power of two: sample storage that grows in steps); compared "
+                   "every 97th round, in the three rounds after each power of two and at the end"),
     Component("default_L_monte_carlo", check_monte_carlo, strategy=st_mc, quick=24, thorough=400,
               rule="3..6 designs, 60 real runs each with the default L (<= 4000), problem rescaled by 1 / 1e-4 / 1e-2 / 1e3, exact binomial tail at 1e-9"),
 ]
